@@ -251,7 +251,8 @@ KERNEL_C = ['tridiag.c', 'integration_shared.c', 'integration1D.c', 'integration
             'integration3D.c', 'integration4D.c', 'integration5D.c']
 
 
-def build_clib(repo='/repo', outdir='/verif/.build', extra=()):
+def build_clib(repo=None, outdir='/verif/.build', extra=()):
+    repo = repo or os.environ.get('DADI_REPO', '/repo')
     os.makedirs(outdir, exist_ok=True)
     out = os.path.join(outdir, 'libdadi_c_%d.so' % os.getpid())
     srcs = [os.path.join(repo, 'dadi', f) for f in KERNEL_C] + list(extra)
@@ -260,8 +261,9 @@ def build_clib(repo='/repo', outdir='/verif/.build', extra=()):
     return out
 
 
-def load_ir(repo='/repo', files=None):
+def load_ir(repo=None, files=None):
     from . import llir
+    repo = repo or os.environ.get('DADI_REPO', '/repo')
     m = llir.Module()
     d = os.path.join(repo, 'dadi')
     m.load_c([os.path.join(d, f) for f in (files or KERNEL_C)], [d])
